@@ -5,16 +5,18 @@
 use vstd::prelude::*;
 verus! {
 
-pub struct Msg;
-impl Msg { pub fn into(self) -> Msg { self } }
+/// an error message; `sortable`: starts with the upper-case hexadecimal offset the error sorter parses (see unit v_msg_shape)
+pub struct Msg { pub sortable: bool }
+impl Msg { pub fn into(self) -> (r: Msg) ensures r == self { self } }
 #[verifier::external_body]
-fn opaque_msg() -> Msg { Msg }
+fn opaque_msg_shaped(b: bool) -> (m: Msg) ensures m.sortable == b { unimplemented!() }
 pub enum StatType { Error(Msg) }
 pub struct SendErr;
 pub struct Sender { pub sent: Ghost<int> }
 impl Sender {
     #[verifier::external_body]
-    pub fn send(&mut self, x: StatType) -> (r: Result<(), SendErr>) ensures r.is_ok(), final(self).sent@ == old(self).sent@ + 1 { unimplemented!() }
+    pub fn send(&mut self, x: StatType) -> (r: Result<(), SendErr>) requires x matches StatType::Error(m) ==> m.sortable, // [C04] every error message starts with 0x<UPPER HEX> (the error sorter panics otherwise)
+        ensures r.is_ok(), final(self).sent@ == old(self).sent@ + 1 { unimplemented!() }
 }
 pub struct Stave;
 pub struct StatusWordContainer;
